@@ -261,7 +261,10 @@ class CallTracer:
         if trace is None:
             return
         elif last_opcode == YIELD_VALUE_OPCODE:
-            trace.add_yield_type(typ)
+            # A coroutine suspending on an `await` also leaves its frame with
+            # YIELD_VALUE; that is not a yield of the traced function.
+            if not frame.f_code.co_flags & inspect.CO_COROUTINE:
+                trace.add_yield_type(typ)
         else:
             if last_opcode in RETURN_OPCODES:
                 trace.return_type = typ
